@@ -1023,5 +1023,774 @@ theorem acceptTxn_spec : StepSpec acceptTxn PTxn where
 theorem acceptJournal_spec : StepSpec acceptJournal (fun s rs => ∀ r ∈ rs, PTxn s r) :=
   acceptTxn_spec.mapMS
 
+/-! ## The names a journal uses (plain list functions) -/
+
+/-- accounts posted to, including the amount-less last posting -/
+def txnAccounts (r : RawTxn) : List Path :=
+  r.posts.map (·.acct) ++ (match r.last with | some (a, _) => [a] | none => [])
+
+/-- commodities of the postings and of their closing positions (`@`, `=`) -/
+def txnCommodities (r : RawTxn) : List String := r.posts.flatMap (fun rp => unitComms rp.unit)
+
+def txnTags (r : RawTxn) : List String := match r.header.tags with | some ts => ts | none => []
+
+def usedAccounts (rs : List RawTxn) : List Path := rs.flatMap txnAccounts
+def usedCommodities (rs : List RawTxn) : List String := rs.flatMap txnCommodities
+def usedTags (rs : List RawTxn) : List String := rs.flatMap txnTags
+
+/-- every name the journal uses is declared in the charts of `s`.  The empty commodity is not a chart
+    entry: it is governed by the separate `permit-empty-commodity` switch, in both modes alike. -/
+structure Declared (s : Settings) (rs : List RawTxn) : Prop where
+  accounts : ∀ a ∈ usedAccounts rs, a ∈ s.accounts
+  commodities : ∀ c ∈ usedCommodities rs, c ≠ "" → c ∈ s.commodities
+  tags : ∀ t ∈ usedTags rs, t ∈ s.tags
+
+theorem PComm_iff (s : Settings) (c : String) : PComm s c ↔ (c ≠ "" → c ∈ s.commodities) := by
+  unfold PComm
+  by_cases h : c = "" <;> simp [h]
+
+theorem declared_iff (s : Settings) (rs : List RawTxn) : (∀ r ∈ rs, PTxn s r) ↔ Declared s rs := by
+  constructor
+  · intro h
+    refine ⟨?_, ?_, ?_⟩
+    · intro a ha
+      obtain ⟨r, hr, ha⟩ := List.mem_flatMap.mp ha
+      obtain ⟨_, hp, hl⟩ := h r hr
+      rcases List.mem_append.mp ha with ha | ha
+      · obtain ⟨rp, hrp, rfl⟩ := List.mem_map.mp ha
+        exact (hp rp hrp).2
+      · cases hlast : r.last with
+        | none => simp [hlast] at ha
+        | some ac =>
+          obtain ⟨a0, cmt⟩ := ac
+          simp only [hlast, List.mem_singleton] at ha
+          subst ha
+          exact hl a cmt hlast
+    · intro c hc
+      obtain ⟨r, hr, hc⟩ := List.mem_flatMap.mp hc
+      obtain ⟨rp, hrp, hc⟩ := List.mem_flatMap.mp hc
+      exact (PComm_iff s c).mp (((h r hr).2.1 rp hrp).1 c hc)
+    · intro t ht
+      obtain ⟨r, hr, ht⟩ := List.mem_flatMap.mp ht
+      cases htags : r.header.tags with
+      | none => simp [txnTags, htags] at ht
+      | some ts =>
+        simp only [txnTags, htags] at ht
+        exact (h r hr).1 ts htags t ht
+  · intro h r hr
+    refine ⟨?_, ?_, ?_⟩
+    · intro ts hts t ht
+      exact h.tags t (List.mem_flatMap.mpr ⟨r, hr, by simp only [txnTags, hts]; exact ht⟩)
+    · intro rp hrp
+      refine ⟨fun c hc => (PComm_iff s c).mpr (h.commodities c ?_), h.accounts _ ?_⟩
+      · exact List.mem_flatMap.mpr ⟨r, hr, List.mem_flatMap.mpr ⟨rp, hrp, hc⟩⟩
+      · exact List.mem_flatMap.mpr ⟨r, hr, List.mem_append.mpr (.inl (List.mem_map.mpr ⟨rp, hrp, rfl⟩))⟩
+    · intro a cmt hl
+      refine h.accounts a (List.mem_flatMap.mpr ⟨r, hr, List.mem_append.mpr (.inr ?_)⟩)
+      simp only at hl
+      simp [hl]
+
+/-! ## Property theorems -/
+
+/-- **strict_iff.** With strict mode on, a journal is accepted (with transactions `ts`) exactly when every
+    account, commodity (posting, closing price) and tag it uses is declared *and* the same journal is
+    accepted (with the same transactions) by lax-mode settings with the same `permit-empty-commodity`
+    and audit switches — whatever their charts. -/
+theorem strict_iff (st st' : Settings) (rs : List RawTxn) (ts : List Txn)
+    (hs : st.strict = true) (hl : st'.strict = false)
+    (hpe : st'.permitEmpty = st.permitEmpty) (ha : st'.audit = st.audit) :
+    (∃ s2, acceptJournal st rs = .ok (ts, s2)) ↔
+      Declared st rs ∧ ∃ s2', acceptJournal st' rs = .ok (ts, s2') := by
+  rw [acceptJournal_spec.iff st st' rs ts ⟨hl, hpe, ha⟩, ← declared_iff]
+  simp [hs]
+
+/-- in strict mode reading a journal never changes the charts (only the empty commodity may get
+    registered, when it is permitted) -/
+theorem strict_frozen (st s2 : Settings) (rs : List RawTxn) (ts : List Txn) (hs : st.strict = true)
+    (h : acceptJournal st rs = .ok (ts, s2)) : Frozen st s2 :=
+  acceptJournal_spec.frozen st rs ts s2 hs h
+
+/-- **lax_chart_free (acceptance).** With strict mode off, whether a journal is accepted and the accepted
+    transactions do not depend on the charts (same `permit-empty-commodity` and audit switches). -/
+theorem lax_chart_free (st st' : Settings) (rs : List RawTxn) (ts : List Txn)
+    (hs : st.strict = false) (hl : st'.strict = false)
+    (hpe : st'.permitEmpty = st.permitEmpty) (ha : st'.audit = st.audit) :
+    (∃ s2, acceptJournal st rs = .ok (ts, s2)) ↔ ∃ s2', acceptJournal st' rs = .ok (ts, s2') := by
+  rw [acceptJournal_spec.iff st st' rs ts ⟨hl, hpe, ha⟩]
+  simp [hs]
+
+/-- **modes_agree.** If strict and lax settings (same switches, any charts) both accept a journal, they
+    yield the same transactions. -/
+theorem modes_agree (st st' s2 s2' : Settings) (rs : List RawTxn) (ts ts' : List Txn)
+    (hl : st'.strict = false) (hpe : st'.permitEmpty = st.permitEmpty) (ha : st'.audit = st.audit)
+    (h : acceptJournal st rs = .ok (ts, s2)) (h' : acceptJournal st' rs = .ok (ts', s2')) : ts = ts' := by
+  obtain ⟨_, s3, h3⟩ := (acceptJournal_spec.iff st st' rs ts ⟨hl, hpe, ha⟩).mp ⟨s2, h⟩
+  rw [h3] at h'
+  cases h'
+  rfl
+
+/-! ## What reports need: the charts only grow, posted names are in them, ancestors are reachable -/
+
+/-- charts only grow; in lax mode an ancestor-closed account chart stays ancestor-closed -/
+structure Grow (s t : Settings) : Prop where
+  flags : Flags t = Flags s
+  accounts : ∀ a ∈ s.accounts, a ∈ t.accounts
+  commodities : ∀ c ∈ s.commodities, c ∈ t.commodities
+  synthetic : t.synthetic = s.synthetic
+  closed : s.strict = false → AncClosed s.accounts → AncClosed t.accounts
+
+theorem Grow.refl (s : Settings) : Grow s s := ⟨rfl, fun _ h => h, fun _ h => h, rfl, fun _ h => h⟩
+
+theorem Grow.trans {s t u : Settings} (h1 : Grow s t) (h2 : Grow t u) : Grow s u :=
+  ⟨h2.flags.trans h1.flags, fun a ha => h2.accounts a (h1.accounts a ha),
+   fun c hc => h2.commodities c (h1.commodities c hc), h2.synthetic.trans h1.synthetic,
+   fun hs hc => h2.closed ((strict_of_flags h1.flags).trans hs) (h1.closed hs hc)⟩
+
+theorem goc_grow (s : Settings) (x : Option String) (c : String) (s1 : Settings)
+    (h : s.getOrCreateCommodity x = .ok (c, s1)) : Grow s s1 := by
+  obtain ⟨hacc, hsyn, _, hfl, hmono, _⟩ := goc_other _ _ _ _ h
+  exact ⟨hfl, fun a ha => by rw [hacc]; exact ha, hmono, hsyn, fun _ hc => by rw [hacc]; exact hc⟩
+
+theorem tag_grow (s : Settings) (n : String) (b : String) (s1 : Settings)
+    (h : s.getOrCreateTag n = .ok (b, s1)) : Grow s s1 := by
+  simp only [Settings.getOrCreateTag] at h
+  (repeat' split at h) <;> first | (cases h; done) | (cases h; exact Grow.refl _) |
+    (cases h; exact ⟨rfl, fun _ h => h, fun _ h => h, rfl, fun _ h => h⟩)
+
+theorem build_closed (acc : List Path) (p : Path) (hc : AncClosed acc) :
+    AncClosed (buildParents [] acc p) ∧ AncClosed (buildParents [] (acc ++ [p]) p) := by
+  constructor
+  · obtain ⟨hsub, _, hnew⟩ := buildParents_spec [] acc p
+    intro q hq
+    by_cases hqa : q ∈ acc
+    · rcases hc q hqa with h | h
+      · exact .inl h
+      · exact .inr (hsub _ h)
+    · rcases hnew q hq hqa with h | h | h
+      · exact .inl h
+      · cases h
+      · exact .inr h
+  · obtain ⟨hsub, hgood, hnew⟩ := buildParents_spec [] (acc ++ [p]) p
+    intro q hq
+    by_cases hqa : q ∈ acc ++ [p]
+    · rcases List.mem_append.mp hqa with hqa | hqa
+      · rcases hc q hqa with h | h
+        · exact .inl h
+        · exact .inr (hsub _ (List.mem_append.mpr (.inl h)))
+      · have : q = p := by simpa using hqa
+        subst this
+        rcases hgood with h | h | h
+        · exact .inl h
+        · cases h
+        · exact .inr h
+    · rcases hnew q hq hqa with h | h | h
+      · exact .inl h
+      · cases h
+      · exact .inr h
+
+theorem gocta_grow (s : Settings) (p : Path) (c : String) (b : Path) (s2 : Settings)
+    (h : s.getOrCreateTxnAccount p c = .ok (b, s2)) : Grow s s2 ∧ p ∈ s2.accounts ∧ c ∈ s2.commodities := by
+  obtain ⟨c', s1, hc, hcase⟩ := gocta_state _ _ _ _ _ h
+  have hg1 := goc_grow _ _ _ _ hc
+  obtain ⟨hacc1, _, _, _, _, hcin⟩ := goc_other _ _ _ _ hc
+  have hcin := (hcin c rfl).2
+  rcases hcase with ⟨hs, rfl⟩ | ⟨hs, hfl, hsyn, _, hcomm, hacc, _⟩
+  · refine ⟨hg1, ?_, hcin⟩
+    rw [hacc1]
+    exact ((gocta_ok s p c b).mp ⟨_, h⟩).2.2 hs
+  · have hs1 : s1.strict = false := (strict_of_flags hg1.flags).trans hs
+    have hg2 : Grow s1 s2 := by
+      refine ⟨hfl, ?_, fun x hx => by rw [hcomm]; exact hx, hsyn, ?_⟩
+      · intro a ha
+        rcases hacc with hacc | hacc <;> rw [hacc]
+        · exact (buildParents_spec [] _ p).1 a ha
+        · exact (buildParents_spec [] _ p).1 a (List.mem_append.mpr (.inl ha))
+      · intro _ hcl
+        rcases hacc with hacc | hacc <;> rw [hacc]
+        · exact (build_closed _ p hcl).1
+        · exact (build_closed _ p hcl).2
+    refine ⟨hg1.trans hg2, ?_, by rw [hcomm]; exact hcin⟩
+    rcases hacc with hacc | hacc
+    · by_cases hm : p ∈ s1.accounts
+      · rw [hacc]; exact (buildParents_spec [] _ p).1 p hm
+      · -- `p ∉ s1.accounts`: then the other branch was taken
+        unfold Settings.getOrCreateTxnAccount at h
+        simp only [hc, hm, hs1, if_false, Bool.false_eq_true, Outcome.ok.injEq, Prod.mk.injEq] at h
+        rw [← h.2]
+        exact (buildParents_spec [] _ p).1 p (by simp)
+    · rw [hacc]; exact (buildParents_spec [] _ p).1 p (by simp)
+
+theorem mapMS_grow {α β : Type} (f : Settings → α → Outcome (β × Settings)) (Q : Settings → β → Prop)
+    (hg : ∀ s a b t, f s a = .ok (b, t) → Grow s t ∧ Q t b)
+    (hq : ∀ s t b, Grow s t → Q s b → Q t b) :
+    ∀ (l : List α) (s : Settings) (bs : List β) (t : Settings), mapMS f s l = .ok (bs, t) →
+      Grow s t ∧ ∀ b ∈ bs, Q t b := by
+  intro l
+  induction l with
+  | nil =>
+    intro s bs t h
+    simp only [mapMS] at h
+    cases h
+    exact ⟨Grow.refl _, fun b hb => by cases hb⟩
+  | cons a tl ih =>
+    intro s bs t h
+    obtain ⟨b, s1, bs', h1, h2, rfl⟩ := (mapMS_cons_ok f s t a tl bs).mp h
+    obtain ⟨g1, q1⟩ := hg s a b s1 h1
+    obtain ⟨g2, q2⟩ := ih s1 bs' t h2
+    refine ⟨g1.trans g2, ?_⟩
+    intro x hx
+    rcases List.mem_cons.mp hx with rfl | hx
+    · exact hq s1 t x g2 q1
+    · exact q2 x hx
+
+/-- the account and the commodity of an accepted posting are in the charts -/
+def InChart (t : Settings) (p : Posting) : Prop := p.acct ∈ t.accounts ∧ p.comm ∈ t.commodities
+
+theorem InChart.mono {s t : Settings} {p : Posting} (g : Grow s t) (h : InChart s p) : InChart t p :=
+  ⟨g.accounts _ h.1, g.commodities _ h.2⟩
+
+theorem registerUnit_grow (s : Settings) (u : Option PostUnit) (s2 : Settings) (h : registerUnit s u = .ok s2) :
+    Grow s s2 := by
+  rcases registerUnit_inv s u s2 h with ⟨_, rfl⟩ | ⟨pu, c1, _, _, h1⟩ | ⟨pu, v, c1, s1, c2, _, _, h1, h2⟩
+  · exact Grow.refl _
+  · exact goc_grow _ _ _ _ h1
+  · exact (goc_grow _ _ _ _ h1).trans (goc_grow _ _ _ _ h2)
+
+theorem handlePosting_grow (s : Settings) (rp : RawPosting) (p : Posting) (s2 : Settings)
+    (h : handlePosting s rp = .ok (p, s2)) : Grow s s2 ∧ InChart s2 p := by
+  obtain ⟨s1, vp, a, h1, _, h3, h4⟩ := (handlePosting_ok _ _ _ _).mp h
+  obtain ⟨g, ha, hc⟩ := gocta_grow _ _ _ _ _ h3
+  have := mkPosting_eq _ _ h4
+  subst this
+  have hab : a = rp.acct := ((gocta_ok s1 rp.acct vp.postComm a).mp ⟨_, h3⟩).1
+  exact ⟨(registerUnit_grow _ _ _ h1).trans g, by rw [hab]; exact ha, hc⟩
+
+theorem acceptPostings_grow (s : Settings) (posts : List RawPosting) (last : Option (Path × Option String))
+    (all : List Posting) (s2 : Settings) (h : acceptPostings s posts last = .ok (all, s2)) :
+    Grow s s2 ∧ ∀ p ∈ all, InChart s2 p := by
+  obtain ⟨p0, rest, s1, h1, hcase⟩ := (acceptPostings_ok _ _ _ _ _).mp h
+  obtain ⟨g1, q1⟩ := mapMS_grow handlePosting InChart handlePosting_grow (fun _ _ _ g hq => hq.mono g) _ _ _ _ h1
+  rcases hcase with ⟨_, rfl, rfl⟩ | ⟨a, cmt, sm, a', l, _, _, hg, hl, rfl⟩
+  · exact ⟨g1, q1⟩
+  · obtain ⟨g2, ha, hc⟩ := gocta_grow _ _ _ _ _ hg
+    have := mkPosting_eq _ _ hl
+    subst this
+    have hab : a' = a := ((gocta_ok s1 a p0.txnComm a').mp ⟨_, hg⟩).1
+    refine ⟨g1.trans g2, ?_⟩
+    intro p hp
+    rcases List.mem_append.mp hp with hp | hp
+    · exact (q1 p hp).mono g2
+    · have : p = _ := List.mem_singleton.mp hp
+      subst this
+      exact ⟨by rw [hab]; exact ha, hc⟩
+
+theorem acceptTags_grow (s : Settings) (tags : List String) (s2 : Settings) (h : acceptTags s tags = .ok s2) :
+    Grow s s2 := by
+  obtain ⟨⟨bs, h1⟩, _⟩ := (acceptTags_ok _ _ _).mp h
+  exact (mapMS_grow (fun s t => s.getOrCreateTag t) (fun _ _ => True)
+    (fun s a b t hh => ⟨tag_grow s a b t hh, trivial⟩) (fun _ _ _ _ _ => trivial) _ _ _ _ h1).1
+
+theorem acceptHeader_grow (s : Settings) (h : Header) (s2 : Settings) (hh : acceptHeader s h = .ok s2) :
+    Grow s s2 := by
+  obtain ⟨_, _, hcase⟩ := (acceptHeader_ok _ _ _).mp hh
+  rcases hcase with ⟨_, rfl⟩ | ⟨ts, _, h1⟩
+  · exact Grow.refl _
+  · exact acceptTags_grow _ _ _ h1
+
+theorem acceptTxn_grow (s : Settings) (r : RawTxn) (t : Txn) (s2 : Settings) (h : acceptTxn s r = .ok (t, s2)) :
+    Grow s s2 ∧ ∀ p ∈ t.posts, InChart s2 p := by
+  obtain ⟨s1, ps, h1, h2, rfl, _⟩ := (acceptTxn_ok _ _ _ _).mp h
+  obtain ⟨g2, q2⟩ := acceptPostings_grow _ _ _ _ _ h2
+  exact ⟨(acceptHeader_grow _ _ _ h1).trans g2, q2⟩
+
+theorem acceptJournal_grow (s : Settings) (rs : List RawTxn) (ts : List Txn) (s2 : Settings)
+    (h : acceptJournal s rs = .ok (ts, s2)) : Grow s s2 ∧ ∀ t ∈ ts, ∀ p ∈ t.posts, InChart s2 p :=
+  mapMS_grow acceptTxn (fun st t => ∀ p ∈ t.posts, InChart st p) acceptTxn_grow
+    (fun _ _ _ g hq p hp => (hq p hp).mono g) _ _ _ _ h
+
+/-- `q` is an ancestor of `p` or `p` itself: a non-empty prefix of the component list -/
+def IsAncestorOrSelf (q p : Path) : Prop := q ≠ [] ∧ q <+: p
+
+/-- **report_parents_ok.** After a journal has been accepted — in lax mode from an ancestor-closed
+    account chart, in strict mode from a chart whose declared accounts and synthetic parents are closed
+    together (both hold for `Settings.ofConfig`, see `ofConfig_closed`) — `get_txn_account`, which the
+    balance kernel uses to create the missing (gap) rows of a report, succeeds for every ancestor of
+    every account posted to, in the posting's commodity.  (F9 is the failure of exactly this.) -/
+theorem report_parents_ok (st st' : Settings) (rs : List RawTxn) (ts : List Txn)
+    (hcl : if st.strict then AncClosed2 st.accounts st.synthetic else AncClosed st.accounts)
+    (h : acceptJournal st rs = .ok (ts, st')) :
+    ∀ t ∈ ts, ∀ p ∈ t.posts, ∀ q, IsAncestorOrSelf q p.acct → st'.getTxnAccount q p.comm = .ok (q, p.comm) := by
+  intro t ht p hp q ⟨hq, hpre⟩
+  obtain ⟨g, hin⟩ := acceptJournal_grow _ _ _ _ h
+  obtain ⟨hacc, hcomm⟩ := hin t ht p hp
+  unfold Settings.getTxnAccount
+  simp only [hcomm, if_true]
+  by_cases hs : st.strict = true
+  · simp only [hs, if_true] at hcl
+    have hfr := strict_frozen st st' rs ts hs h
+    have hcl' : AncClosed2 st'.accounts st'.synthetic := by rw [hfr.accounts, hfr.synthetic]; exact hcl
+    have := closed_prefix (fun x => x ∈ st'.accounts ∨ x ∈ st'.synthetic) hcl' p.acct.length p.acct q rfl (.inl hacc) hq hpre
+    rcases this with h1 | h1
+    · simp [h1]
+    · by_cases h0 : q ∈ st'.accounts <;> simp [h0, h1]
+  · have hs' : st.strict = false := by simpa using hs
+    simp only [hs', Bool.false_eq_true, if_false] at hcl
+    have hcl' := g.closed hs' hcl
+    have := closed_prefix (fun x => x ∈ st'.accounts) hcl' p.acct.length p.acct q rfl hacc hq hpre
+    simp [this]
+
+theorem ofConfig_closed (strict audit pe : Bool) (accts : List Path) (comms tags : List String) :
+    if (Settings.ofConfig strict audit pe accts comms tags).strict
+    then AncClosed2 (Settings.ofConfig strict audit pe accts comms tags).accounts
+          (Settings.ofConfig strict audit pe accts comms tags).synthetic
+    else AncClosed (Settings.ofConfig strict audit pe accts comms tags).accounts := by
+  cases strict
+  · simp only [Settings.ofConfig, Bool.false_eq_true, if_false]
+    exact accountTreesFrom_lax_closed accts
+  · simp only [Settings.ofConfig, if_true]
+    exact accountTreesFrom_strict_closed accts
+
+/-- **lax_ancestor_closed.** The invariant that makes reports work with strict mode off: an ancestor-closed
+    account chart is still ancestor-closed after any accepted journal (the same holds after every single
+    transaction: `acceptTxn_grow`).  `Settings.ofConfig false …` starts ancestor-closed
+    (`accountTreesFrom_lax_closed`; before the fix of F9 it did not). -/
+theorem lax_ancestor_closed (st st' : Settings) (rs : List RawTxn) (ts : List Txn) (hs : st.strict = false)
+    (hcl : AncClosed st.accounts) (h : acceptJournal st rs = .ok (ts, st')) : AncClosed st'.accounts :=
+  (acceptJournal_grow _ _ _ _ h).1.closed hs hcl
+
+/-! ### the same, stated on configurations -/
+
+theorem ofConfig_strict (strict audit pe : Bool) (accts : List Path) (comms tags : List String) :
+    (Settings.ofConfig strict audit pe accts comms tags).strict = strict ∧
+    (Settings.ofConfig strict audit pe accts comms tags).audit = audit ∧
+    (Settings.ofConfig strict audit pe accts comms tags).permitEmpty = pe ∧
+    (∀ c, c ∈ (Settings.ofConfig strict audit pe accts comms tags).commodities ↔ c ∈ comms) ∧
+    (∀ t, t ∈ (Settings.ofConfig strict audit pe accts comms tags).tags ↔ t ∈ tags) ∧
+    (Settings.ofConfig strict audit pe accts comms tags).accounts = (accountTreesFrom accts strict).1 ∧
+    (Settings.ofConfig strict audit pe accts comms tags).synthetic = (accountTreesFrom accts strict).2 := by
+  simp [Settings.ofConfig, mem_foldl_insertNew]
+
+/-- **strict_iff** on configurations: strict mode accepts exactly the journals that lax mode accepts with
+    the same charts and switches and that use only declared accounts, commodities and tags. -/
+theorem strict_iff_config (audit pe : Bool) (accts : List Path) (comms tags : List String)
+    (rs : List RawTxn) (ts : List Txn) :
+    (∃ s2, acceptJournal (Settings.ofConfig true audit pe accts comms tags) rs = .ok (ts, s2)) ↔
+      ((∀ a ∈ usedAccounts rs, a ∈ accts) ∧ (∀ c ∈ usedCommodities rs, c ≠ "" → c ∈ comms) ∧
+       (∀ t ∈ usedTags rs, t ∈ tags)) ∧
+      ∃ s2', acceptJournal (Settings.ofConfig false audit pe accts comms tags) rs = .ok (ts, s2') := by
+  obtain ⟨h1, h2, h3, h4, h5, h6, _⟩ := ofConfig_strict true audit pe accts comms tags
+  obtain ⟨k1, k2, k3, _⟩ := ofConfig_strict false audit pe accts comms tags
+  rw [strict_iff _ (Settings.ofConfig false audit pe accts comms tags) rs ts h1 k1 (k3.trans h3.symm) (k2.trans h2.symm)]
+  have hd : Declared (Settings.ofConfig true audit pe accts comms tags) rs ↔
+      ((∀ a ∈ usedAccounts rs, a ∈ accts) ∧ (∀ c ∈ usedCommodities rs, c ≠ "" → c ∈ comms) ∧
+       (∀ t ∈ usedTags rs, t ∈ tags)) := by
+    constructor
+    · rintro ⟨a, c, t⟩
+      refine ⟨fun x hx => ?_, fun x hx hne => (h4 x).mp (c x hx hne), fun x hx => (h5 x).mp (t x hx)⟩
+      have := a x hx
+      rw [h6] at this
+      exact (accountTreesFrom_strict_fst accts x).mp this
+    · rintro ⟨a, c, t⟩
+      refine ⟨fun x hx => ?_, fun x hx hne => (h4 x).mpr (c x hx hne), fun x hx => (h5 x).mpr (t x hx)⟩
+      rw [h6]
+      exact (accountTreesFrom_strict_fst accts x).mpr (a x hx)
+  rw [hd]
+
+/-- **lax_chart_free** on configurations: the declared charts are irrelevant with strict mode off -/
+theorem lax_chart_free_config (audit pe : Bool) (accts : List Path) (comms tags : List String)
+    (rs : List RawTxn) (ts : List Txn) :
+    (∃ s2, acceptJournal (Settings.ofConfig false audit pe accts comms tags) rs = .ok (ts, s2)) ↔
+      ∃ s2', acceptJournal (Settings.ofConfig false audit pe [] [] []) rs = .ok (ts, s2') := by
+  obtain ⟨h1, h2, h3, _⟩ := ofConfig_strict false audit pe accts comms tags
+  obtain ⟨k1, k2, k3, _⟩ := ofConfig_strict false audit pe [] [] []
+  exact lax_chart_free _ _ rs ts h1 k1 (k3.trans h3.symm) (k2.trans h2.symm)
+
+/-- **synthetic_only_reports.** In strict mode an undeclared ancestor `a` of a declared account `d` cannot be
+    posted to (`get_or_create_txn_account` does not succeed, whatever the commodity), but
+    `get_txn_account` — the lookup the balance kernel uses for gap rows — finds it. -/
+theorem synthetic_only_reports (audit pe : Bool) (accts : List Path) (comms tags : List String) (a d : Path)
+    (hd : d ∈ accts) (ha : a ≠ []) (hpre : a <+: d) (hnd : a ∉ accts) :
+    (∀ c r, (Settings.ofConfig true audit pe accts comms tags).getOrCreateTxnAccount a c ≠ .ok r) ∧
+    (∀ c, c ∈ (Settings.ofConfig true audit pe accts comms tags).commodities →
+      (Settings.ofConfig true audit pe accts comms tags).getTxnAccount a c = .ok (a, c)) := by
+  obtain ⟨h1, _, _, _, _, h6, h7⟩ := ofConfig_strict true audit pe accts comms tags
+  have hna : a ∉ (Settings.ofConfig true audit pe accts comms tags).accounts := by
+    rw [h6]; exact fun h => hnd ((accountTreesFrom_strict_fst accts a).mp h)
+  constructor
+  · intro c r hr
+    obtain ⟨b, s2⟩ := r
+    exact hna (((gocta_ok _ a c b).mp ⟨s2, hr⟩).2.2 h1)
+  · intro c hc
+    have hcl := accountTreesFrom_strict_closed accts
+    have hdm : d ∈ (accountTreesFrom accts true).1 := (accountTreesFrom_strict_fst accts d).mpr hd
+    have := closed_prefix (fun x => x ∈ (accountTreesFrom accts true).1 ∨ x ∈ (accountTreesFrom accts true).2)
+      hcl d.length d a rfl (.inl hdm) ha hpre
+    rw [← h6, ← h7] at this
+    rcases this with h | h
+    · exact absurd h hna
+    · unfold Settings.getTxnAccount
+      simp [hc, hna, h]
+
+/-! ## Settings construction: report commodity, price file, equity account -/
+
+def PEntry (s : Settings) (e : String × String) : Prop := PComm s e.1 ∧ PComm s e.2
+
+theorem registerPriceEntry_ok (s : Settings) (e : String × String) (u : Unit) (s2 : Settings) :
+    registerPriceEntry s e = .ok (u, s2) ↔
+      ∃ c1 s1 c2, s.getOrCreateCommodity (some e.1) = .ok (c1, s1) ∧ s1.getOrCreateCommodity (some e.2) = .ok (c2, s2) := by
+  constructor
+  · intro h
+    unfold registerPriceEntry at h
+    split at h
+    · cases h
+    · cases h
+    · rename_i c1 s1 h1
+      split at h
+      · cases h
+      · cases h
+      · rename_i c2 s2' h2
+        cases h
+        exact ⟨c1, s1, c2, h1, h2⟩
+  · rintro ⟨c1, s1, c2, h1, h2⟩
+    simp [registerPriceEntry, h1, h2]
+
+theorem priceEntry_spec : StepSpec registerPriceEntry PEntry where
+  flags := by
+    intro s e u s2 h
+    obtain ⟨c1, s1, c2, h1, h2⟩ := (registerPriceEntry_ok _ _ _ _).mp h
+    exact (goc_spec.flags _ _ _ _ h2).trans (goc_spec.flags _ _ _ _ h1)
+  frozen := by
+    intro s e u s2 hs h
+    obtain ⟨c1, s1, c2, h1, h2⟩ := (registerPriceEntry_ok _ _ _ _).mp h
+    have hfr := goc_spec.frozen _ _ _ _ hs h1
+    exact hfr.trans (goc_spec.frozen _ _ _ _ (hfr.strict.trans hs) h2)
+  iff := by
+    intro s s' e u hr
+    constructor
+    · rintro ⟨s2, h⟩
+      obtain ⟨c1, s1, c2, h1, h2⟩ := (registerPriceEntry_ok _ _ _ _).mp h
+      obtain ⟨hp1, s1', h1'⟩ := (goc_spec.iff s s' e.1 c1 hr).mp ⟨s1, h1⟩
+      have hr1 : Rel s1 s1' := hr.step (goc_spec.flags _ _ _ _ h1) (goc_spec.flags _ _ _ _ h1')
+      obtain ⟨hp2, s2', h2'⟩ := (goc_spec.iff s1 s1' e.2 c2 hr1).mp ⟨s2, h2⟩
+      refine ⟨fun hs => ⟨hp1 hs, ?_⟩, s2', (registerPriceEntry_ok _ _ _ _).mpr ⟨c1, s1', c2, h1', h2'⟩⟩
+      have hfr := goc_spec.frozen _ _ _ _ hs h1
+      exact (PComm.stable _ hfr).mp (hp2 (hfr.strict.trans hs))
+    · rintro ⟨hp, s2', h'⟩
+      obtain ⟨c1, s1', c2, h1', h2'⟩ := (registerPriceEntry_ok _ _ _ _).mp h'
+      obtain ⟨s1, h1⟩ := (goc_spec.iff s s' e.1 c1 hr).mpr ⟨fun hs => (hp hs).1, s1', h1'⟩
+      have hr1 : Rel s1 s1' := hr.step (goc_spec.flags _ _ _ _ h1) (goc_spec.flags _ _ _ _ h1')
+      obtain ⟨s2, h2⟩ := (goc_spec.iff s1 s1' e.2 c2 hr1).mpr ⟨fun hs1 => by
+        have hs : s.strict = true := (strict_of_flags (goc_spec.flags _ _ _ _ h1)).symm.trans hs1
+        exact (PComm.stable _ (goc_spec.frozen _ _ _ _ hs h1)).mpr (hp hs).2, s2', h2'⟩
+      exact ⟨s2, (registerPriceEntry_ok _ _ _ _).mpr ⟨c1, s1, c2, h1, h2⟩⟩
+  stable := by
+    intro s t e h
+    simp only [PEntry, PComm.stable e.1 h, PComm.stable e.2 h]
+
+theorem priceEntries_spec :
+    StepSpec (fun s l => mapMS registerPriceEntry s l) (fun s l => ∀ e ∈ l, PEntry s e) :=
+  priceEntry_spec.mapMS
+
+theorem loadPriceDb_ok (s : Settings) (es : List (String × String)) (s2 : Settings) :
+    loadPriceDb s es = .ok s2 ↔ es ≠ [] ∧ ∃ us, mapMS registerPriceEntry s es = .ok (us, s2) := by
+  unfold loadPriceDb
+  cases es with
+  | nil => simp
+  | cons e tl =>
+    cases h1 : mapMS registerPriceEntry s (e :: tl) with
+    | err => simp
+    | undef => simp
+    | ok r => obtain ⟨us, s1⟩ := r; simp
+
+theorem loadPriceDb_spec : StepSpecS loadPriceDb (fun s l => ∀ e ∈ l, PEntry s e) where
+  flags := by
+    intro s l s2 h
+    obtain ⟨_, us, h1⟩ := (loadPriceDb_ok _ _ _).mp h
+    exact priceEntries_spec.flags _ _ _ _ h1
+  frozen := by
+    intro s l s2 hs h
+    obtain ⟨_, us, h1⟩ := (loadPriceDb_ok _ _ _).mp h
+    exact priceEntries_spec.frozen _ _ _ _ hs h1
+  iff := by
+    intro s s' l hr
+    constructor
+    · rintro ⟨s2, h⟩
+      obtain ⟨hne, us, h1⟩ := (loadPriceDb_ok _ _ _).mp h
+      obtain ⟨hp, s2', h1'⟩ := (priceEntries_spec.iff s s' l us hr).mp ⟨s2, h1⟩
+      exact ⟨hp, s2', (loadPriceDb_ok _ _ _).mpr ⟨hne, us, h1'⟩⟩
+    · rintro ⟨hp, s2', h'⟩
+      obtain ⟨hne, us, h1'⟩ := (loadPriceDb_ok _ _ _).mp h'
+      obtain ⟨s2, h1⟩ := (priceEntries_spec.iff s s' l us hr).mpr ⟨hp, s2', h1'⟩
+      exact ⟨s2, (loadPriceDb_ok _ _ _).mpr ⟨hne, us, h1⟩⟩
+  stable := priceEntries_spec.stable
+
+/-- report commodity and price-file commodities are the empty one or in the chart -/
+def PCfg (s : Settings) (a : Option String × Option (List (String × String))) : Prop :=
+  ∀ rc, a.1 = some rc → PComm s rc ∧ ∀ es, a.2 = some es → ∀ e ∈ es, PEntry s e
+
+theorem registerCfg_ok (s : Settings) (a : Option String × Option (List (String × String))) (s2 : Settings) :
+    registerCfg s a = .ok s2 ↔
+      (a.1 = none ∧ a.2 = none ∧ s2 = s) ∨
+      (∃ rc c1 s1, a.1 = some rc ∧ s.getOrCreateCommodity (some rc) = .ok (c1, s1) ∧
+        ((a.2 = none ∧ s2 = s1) ∨ ∃ es, a.2 = some es ∧ loadPriceDb s1 es = .ok s2)) := by
+  obtain ⟨rc0, pd⟩ := a
+  unfold registerCfg
+  cases rc0 with
+  | none => cases pd <;> simp [eq_comm]
+  | some rc =>
+    simp only [reduceCtorEq, false_and, false_or, Option.some.injEq]
+    cases h1 : s.getOrCreateCommodity (some rc) with
+    | err => simp [h1]
+    | undef => simp [h1]
+    | ok r =>
+      obtain ⟨c1, s1⟩ := r
+      cases pd with
+      | none =>
+        simp only [Outcome.ok.injEq, reduceCtorEq, false_and, exists_false, or_false, true_and]
+        constructor
+        · rintro rfl; exact ⟨rc, c1, s1, rfl, h1, rfl⟩
+        · rintro ⟨_, _, _, rfl, h, rfl⟩
+          rw [h1] at h
+          simp only [Outcome.ok.injEq, Prod.mk.injEq] at h
+          exact h.2
+      | some es =>
+        simp only [reduceCtorEq, false_and, false_or, Option.some.injEq, exists_eq_left']
+        constructor
+        · intro h; exact ⟨rc, c1, s1, rfl, h1, h⟩
+        · rintro ⟨_, _, _, rfl, h, h2⟩
+          rw [h1] at h
+          simp only [Outcome.ok.injEq, Prod.mk.injEq] at h
+          rw [h.2]; exact h2
+
+theorem registerCfg_spec : StepSpecS registerCfg PCfg where
+  flags := by
+    intro s a s2 h
+    rcases (registerCfg_ok _ _ _).mp h with ⟨_, _, rfl⟩ | ⟨rc, c1, s1, _, h1, hcase⟩
+    · rfl
+    · rcases hcase with ⟨_, rfl⟩ | ⟨es, _, h2⟩
+      · exact goc_spec.flags _ _ _ _ h1
+      · exact (loadPriceDb_spec.flags _ _ _ h2).trans (goc_spec.flags _ _ _ _ h1)
+  frozen := by
+    intro s a s2 hs h
+    rcases (registerCfg_ok _ _ _).mp h with ⟨_, _, rfl⟩ | ⟨rc, c1, s1, _, h1, hcase⟩
+    · exact Frozen.refl _
+    · have hfr := goc_spec.frozen _ _ _ _ hs h1
+      rcases hcase with ⟨_, rfl⟩ | ⟨es, _, h2⟩
+      · exact hfr
+      · exact hfr.trans (loadPriceDb_spec.frozen _ _ _ (hfr.strict.trans hs) h2)
+  iff := by
+    intro s s' a hr
+    constructor
+    · rintro ⟨s2, h⟩
+      rcases (registerCfg_ok _ _ _).mp h with ⟨ha1, ha2, rfl⟩ | ⟨rc, c1, s1, ha1, h1, hcase⟩
+      · refine ⟨?_, s', (registerCfg_ok _ _ _).mpr (.inl ⟨ha1, ha2, rfl⟩)⟩
+        intro _ rc hrc
+        rw [ha1] at hrc
+        cases hrc
+      · obtain ⟨hp1, s1', h1'⟩ := (goc_spec.iff s s' rc c1 hr).mp ⟨s1, h1⟩
+        have hr1 : Rel s1 s1' := hr.step (goc_spec.flags _ _ _ _ h1) (goc_spec.flags _ _ _ _ h1')
+        rcases hcase with ⟨ha2, rfl⟩ | ⟨es, ha2, h2⟩
+        · refine ⟨fun hs rc' hrc => ?_, s1', (registerCfg_ok _ _ _).mpr (.inr ⟨rc, c1, s1', ha1, h1', .inl ⟨ha2, rfl⟩⟩)⟩
+          rw [ha1] at hrc; cases hrc
+          exact ⟨hp1 hs, fun es hes => by rw [ha2] at hes; cases hes⟩
+        · obtain ⟨hp2, s2', h2'⟩ := (loadPriceDb_spec.iff s1 s1' es hr1).mp ⟨s2, h2⟩
+          refine ⟨fun hs rc' hrc => ?_, s2', (registerCfg_ok _ _ _).mpr (.inr ⟨rc, c1, s1', ha1, h1', .inr ⟨es, ha2, h2'⟩⟩)⟩
+          rw [ha1] at hrc; cases hrc
+          refine ⟨hp1 hs, fun es' hes => ?_⟩
+          rw [ha2] at hes; cases hes
+          have hfr := goc_spec.frozen _ _ _ _ hs h1
+          exact (loadPriceDb_spec.stable s s1 es hfr).mp (hp2 (hfr.strict.trans hs))
+    · rintro ⟨hp, s2', h'⟩
+      rcases (registerCfg_ok _ _ _).mp h' with ⟨ha1, ha2, rfl⟩ | ⟨rc, c1, s1', ha1, h1', hcase⟩
+      · exact ⟨s, (registerCfg_ok _ _ _).mpr (.inl ⟨ha1, ha2, rfl⟩)⟩
+      · obtain ⟨s1, h1⟩ := (goc_spec.iff s s' rc c1 hr).mpr ⟨fun hs => (hp hs rc ha1).1, s1', h1'⟩
+        have hr1 : Rel s1 s1' := hr.step (goc_spec.flags _ _ _ _ h1) (goc_spec.flags _ _ _ _ h1')
+        rcases hcase with ⟨ha2, rfl⟩ | ⟨es, ha2, h2'⟩
+        · exact ⟨s1, (registerCfg_ok _ _ _).mpr (.inr ⟨rc, c1, s1, ha1, h1, .inl ⟨ha2, rfl⟩⟩)⟩
+        · obtain ⟨s2, h2⟩ := (loadPriceDb_spec.iff s1 s1' es hr1).mpr ⟨fun hs1 => by
+            have hs : s.strict = true := (strict_of_flags (goc_spec.flags _ _ _ _ h1)).symm.trans hs1
+            have hfr := goc_spec.frozen _ _ _ _ hs h1
+            exact (loadPriceDb_spec.stable s s1 es hfr).mpr ((hp hs rc ha1).2 es ha2), s2', h2'⟩
+          exact ⟨s2, (registerCfg_ok _ _ _).mpr (.inr ⟨rc, c1, s1, ha1, h1, .inr ⟨es, ha2, h2⟩⟩)⟩
+  stable := by
+    intro s t a h
+    unfold PCfg
+    constructor
+    · intro hp rc hrc
+      exact ⟨(PComm.stable rc h).mp (hp rc hrc).1, fun es hes => (loadPriceDb_spec.stable s t es h).mp ((hp rc hrc).2 es hes)⟩
+    · intro hp rc hrc
+      exact ⟨(PComm.stable rc h).mpr (hp rc hrc).1, fun es hes => (loadPriceDb_spec.stable s t es h).mpr ((hp rc hrc).2 es hes)⟩
+
+/-- the names the configuration itself uses are declared: the equity account (when the equity export is
+    selected), the report commodity, both commodities of every price-file entry -/
+structure DeclaredCfg (c : ChartCfg) : Prop where
+  equity : c.equityTarget = true → c.equityAccount ∈ c.accounts
+  report : ∀ rc, c.reportCommodity = some rc → rc ≠ "" → rc ∈ c.commodities
+  price : ∀ es, c.priceDb = some es → ∀ e ∈ es, (e.1 ≠ "" → e.1 ∈ c.commodities) ∧ (e.2 ≠ "" → e.2 ∈ c.commodities)
+
+def cfgSettings (c : ChartCfg) : Settings :=
+  Settings.ofConfig c.strict c.audit c.permitEmpty c.accounts c.commodities c.tags
+
+theorem acceptWithCfg_ok (c : ChartCfg) (rs : List RawTxn) (ts : List Txn) (s2 : Settings) :
+    acceptWithCfg c rs = .ok (ts, s2) ↔
+      ¬(c.strict = true ∧ c.equityTarget = true ∧ c.equityAccount ∉ (cfgSettings c).accounts) ∧
+      ∃ st1, registerCfg (cfgSettings c) (c.reportCommodity, c.priceDb) = .ok st1 ∧
+        acceptJournal st1 rs = .ok (ts, s2) := by
+  unfold acceptWithCfg settingsTryFrom cfgSettings
+  by_cases heq : c.strict = true ∧ c.equityTarget = true ∧
+      c.equityAccount ∉ (Settings.ofConfig c.strict c.audit c.permitEmpty c.accounts c.commodities c.tags).accounts
+  · rw [if_pos heq]
+    simp only [reduceCtorEq, false_iff]
+    exact fun h => h.1 heq
+  · rw [if_neg heq]
+    simp only [heq, not_false_eq_true, true_and]
+    cases h1 : registerCfg (Settings.ofConfig c.strict c.audit c.permitEmpty c.accounts c.commodities c.tags)
+        (c.reportCommodity, c.priceDb) with
+    | err => simp
+    | undef => simp
+    | ok st1 => simp
+
+/-- **strict_iff** for the whole load (settings construction + journal): with strict mode on, the load
+    succeeds exactly when every name used by the configuration (report commodity, price-file commodities,
+    equity account of a selected equity export) and by the journal (accounts, commodities, tags) is
+    declared and the same load succeeds with strict mode off (yielding the same transactions). -/
+theorem strict_iff_cfg (c : ChartCfg) (rs : List RawTxn) (ts : List Txn) (hs : c.strict = true) :
+    (∃ s2, acceptWithCfg c rs = .ok (ts, s2)) ↔
+      DeclaredCfg c ∧
+      ((∀ a ∈ usedAccounts rs, a ∈ c.accounts) ∧ (∀ x ∈ usedCommodities rs, x ≠ "" → x ∈ c.commodities) ∧
+       (∀ t ∈ usedTags rs, t ∈ c.tags)) ∧
+      ∃ s2', acceptWithCfg { c with strict := false } rs = .ok (ts, s2') := by
+  obtain ⟨h1, h2, h3, h4, h5, h6, _⟩ := ofConfig_strict true c.audit c.permitEmpty c.accounts c.commodities c.tags
+  obtain ⟨k1, k2, k3, _⟩ := ofConfig_strict false c.audit c.permitEmpty c.accounts c.commodities c.tags
+  have hr : Rel (Settings.ofConfig true c.audit c.permitEmpty c.accounts c.commodities c.tags)
+      (Settings.ofConfig false c.audit c.permitEmpty c.accounts c.commodities c.tags) :=
+    ⟨k1, k3.trans h3.symm, k2.trans h2.symm⟩
+  have hacc : ∀ x, x ∈ (Settings.ofConfig true c.audit c.permitEmpty c.accounts c.commodities c.tags).accounts ↔ x ∈ c.accounts := by
+    intro x; rw [h6]; exact accountTreesFrom_strict_fst c.accounts x
+  have hpc : ∀ x, PComm (Settings.ofConfig true c.audit c.permitEmpty c.accounts c.commodities c.tags) x ↔
+      (x ≠ "" → x ∈ c.commodities) := by
+    intro x; rw [PComm_iff, h4]
+  simp only [acceptWithCfg_ok, cfgSettings, hs]
+  constructor
+  · rintro ⟨s2, heq, st1, hreg, hj⟩
+    obtain ⟨hp1, st1', hreg'⟩ := (registerCfg_spec.iff _ _ (c.reportCommodity, c.priceDb) hr).mp ⟨st1, hreg⟩
+    have hfr := registerCfg_spec.frozen _ _ _ h1 hreg
+    have hr1 : Rel st1 st1' := hr.step (registerCfg_spec.flags _ _ _ hreg) (registerCfg_spec.flags _ _ _ hreg')
+    obtain ⟨hp2, s2', hj'⟩ := (acceptJournal_spec.iff st1 st1' rs ts hr1).mp ⟨s2, hj⟩
+    have hdecl := (declared_iff _ rs).mp ((acceptJournal_spec.stable _ st1 rs hfr).mp (hp2 (hfr.strict.trans h1)))
+    refine ⟨⟨?_, ?_, ?_⟩, ⟨?_, ?_, ?_⟩, s2', ?_, st1', hreg', hj'⟩
+    · intro he
+      by_cases hm : c.equityAccount ∈ c.accounts
+      · exact hm
+      · exact absurd ⟨trivial, he, fun h => hm ((hacc _).mp h)⟩ heq
+    · intro rc hrc
+      exact (hpc rc).mp (hp1 h1 rc hrc).1
+    · intro es hes e he
+      cases hrc : c.reportCommodity with
+      | none =>
+        rcases (registerCfg_ok _ _ _).mp hreg with ⟨_, hn, _⟩ | ⟨rc, _, _, hsome, _⟩
+        · simp only at hn; rw [hes] at hn; cases hn
+        · simp only at hsome; rw [hrc] at hsome; cases hsome
+      | some rc =>
+        have := (hp1 h1 rc hrc).2 es hes e he
+        exact ⟨(hpc _).mp this.1, (hpc _).mp this.2⟩
+    · exact fun a ha => (hacc a).mp (hdecl.accounts a ha)
+    · exact fun x hx hne => (h4 x).mp (hdecl.commodities x hx hne)
+    · exact fun t ht => (h5 t).mp (hdecl.tags t ht)
+    · simp
+  · rintro ⟨⟨he, hrep, hprice⟩, ⟨ha, hc, ht⟩, s2', _, st1', hreg', hj'⟩
+    obtain ⟨st1, hreg⟩ := (registerCfg_spec.iff _ _ (c.reportCommodity, c.priceDb) hr).mpr ⟨fun _ rc hrc => by
+      simp only at hrc
+      refine ⟨(hpc rc).mpr (hrep rc hrc), fun es hes e hee => ?_⟩
+      simp only at hes
+      exact ⟨(hpc _).mpr (hprice es hes e hee).1, (hpc _).mpr (hprice es hes e hee).2⟩, st1', hreg'⟩
+    have hfr := registerCfg_spec.frozen _ _ _ h1 hreg
+    have hr1 : Rel st1 st1' := hr.step (registerCfg_spec.flags _ _ _ hreg) (registerCfg_spec.flags _ _ _ hreg')
+    have hdecl : Declared (Settings.ofConfig true c.audit c.permitEmpty c.accounts c.commodities c.tags) rs :=
+      ⟨fun a' ha' => (hacc a').mpr (ha a' ha'), fun x hx hne => (h4 x).mpr (hc x hx hne), fun t' ht' => (h5 t').mpr (ht t' ht')⟩
+    obtain ⟨s2, hj⟩ := (acceptJournal_spec.iff st1 st1' rs ts hr1).mpr
+      ⟨fun _ => (acceptJournal_spec.stable _ st1 rs hfr).mpr ((declared_iff _ rs).mpr hdecl), s2', hj'⟩
+    refine ⟨s2, ?_, st1, hreg, hj⟩
+    rintro ⟨_, het, hne⟩
+    exact hne ((hacc _).mpr (he het))
+
+/-! ## Non-vacuity and regression witnesses -/
+
+def dI (n : Int) : Dec := Dec.ofInt n
+def hdr0 : Header := ⟨⟨0, 0⟩, none, none, none, none, none, none⟩
+def hdrT (tags : List String) : Header := ⟨⟨0, 0⟩, none, none, none, none, some tags, none⟩
+
+/-- ` a:b:c:d 1 / e -1` -/
+def jF9 : List RawTxn := [⟨hdr0, [⟨["a", "b", "c", "d"], dI 1, none, none⟩, ⟨["e"], dI (-1), none, none⟩], none⟩]
+
+/-- F9 (fixed in the tree by fixes/F9-lax-chart-parents.diff): the lax-mode chart as `AccountTrees::from`
+    used to leave it for `accounts = ["a:b:c", "e"]` — the listed accounts only, not ancestor-closed.
+    The journal is accepted, but the balance kernel's lookup of the gap row `a:b` fails. -/
+def unfixedF9 : Settings :=
+  { strict := false, audit := false, permitEmpty := true, accounts := [["a", "b", "c"], ["e"]], synthetic := [],
+    commodities := [], tags := [] }
+
+example : ¬ AncClosed unfixedF9.accounts := by
+  intro h
+  have := h ["a", "b", "c"] (by simp [unfixedF9])
+  simp [parentPath, unfixedF9] at this
+
+example : (acceptJournal unfixedF9 jF9).bind (fun r => r.2.getTxnAccount ["a", "b"] "") = .err := by decide
+
+/-- with the fixed `accountTreesFrom` the same configuration works, as it does with an empty chart -/
+example : (acceptJournal (Settings.ofConfig false false true [["a", "b", "c"], ["e"]] [] []) jF9).bind
+    (fun r => r.2.getTxnAccount ["a", "b"] "") = .ok (["a", "b"], "") := by decide
+example : (acceptJournal (Settings.ofConfig false false true [] [] []) jF9).bind
+    (fun r => r.2.getTxnAccount ["a", "b"] "") = .ok (["a", "b"], "") := by decide
+
+/-- strict mode, chart `a:b:c`, `e`; commodities `EUR`; tags `t1` -/
+def strictSt : Settings := Settings.ofConfig true false false [["a", "b", "c"], ["e"]] ["EUR"] ["t1"]
+
+def eur : Option PostUnit := some ⟨"EUR", none, none⟩
+
+/-- a journal that uses only declared names is accepted in strict mode … -/
+example : (acceptJournal strictSt
+    [⟨hdrT ["t1"], [⟨["a", "b", "c"], dI 1, eur, none⟩], some (["e"], none)⟩]).isOk = true := by decide
+/-- … the undeclared parent `a:b` of the declared `a:b:c` cannot be posted to, but reports can look it up -/
+example : (acceptJournal strictSt [⟨hdr0, [⟨["a", "b"], dI 1, eur, none⟩], some (["e"], none)⟩]) = .err := by decide
+example : strictSt.getTxnAccount ["a", "b"] "EUR" = .ok (["a", "b"], "EUR") := by decide
+/-- … an undeclared commodity that only occurs in a closing price is rejected -/
+example : (acceptJournal strictSt
+    [⟨hdr0, [⟨["a", "b", "c"], dI 1, some ⟨"EUR", none, some (.unitPrice ⟨dI 2, "USD"⟩)⟩, none⟩],
+      some (["e"], none)⟩]) = .err := by decide
+/-- … an undeclared tag is rejected, an undeclared posting to a sub-account of a declared leaf is rejected -/
+example : (acceptJournal strictSt [⟨hdrT ["t2"], [⟨["a", "b", "c"], dI 1, eur, none⟩], some (["e"], none)⟩]) = .err := by
+  decide
+example : (acceptJournal strictSt [⟨hdr0, [⟨["a", "b", "c", "d"], dI 1, eur, none⟩], some (["e"], none)⟩]) = .err := by
+  decide
+/-- … while a commodity in an *opening* position `{..}` is parsed and ignored, hence not checked -/
+example : (acceptJournal strictSt
+    [⟨hdr0, [⟨["a", "b", "c"], dI 1, some ⟨"EUR", some ⟨dI 2, "USD"⟩, none⟩, none⟩], some (["e"], none)⟩]).isOk = true := by
+  decide
+/-- the empty commodity is governed by `permit-empty-commodity`, not by the chart, in both modes -/
+example : (acceptJournal strictSt [⟨hdr0, [⟨["a", "b", "c"], dI 1, none, none⟩], some (["e"], none)⟩]) = .err := by decide
+example : (acceptJournal (Settings.ofConfig false false false [] [] [])
+    [⟨hdr0, [⟨["a", "b", "c"], dI 1, none, none⟩], some (["e"], none)⟩]) = .err := by decide
+example : (acceptJournal (Settings.ofConfig true false true [["a", "b", "c"], ["e"]] ["EUR"] ["t1"])
+    [⟨hdr0, [⟨["a", "b", "c"], dI 1, none, none⟩], some (["e"], none)⟩]).isOk = true := by decide
+
+/-- settings construction: report commodity and price-file commodities are checked in strict mode -/
+def cfg0 : ChartCfg :=
+  { strict := true, audit := false, permitEmpty := false, accounts := [["a"], ["e"]], commodities := ["EUR", "USD"],
+    tags := [], equityTarget := false, equityAccount := ["Equity", "Balance"], reportCommodity := some "EUR",
+    priceDb := some [("USD", "EUR")] }
+
+example : (settingsTryFrom cfg0).isOk = true := by decide
+example : settingsTryFrom { cfg0 with reportCommodity := some "SEK" } = .err := by decide
+example : settingsTryFrom { cfg0 with priceDb := some [("USD", "EUR"), ("SEK", "EUR")] } = .err := by decide
+example : settingsTryFrom { cfg0 with equityTarget := true } = .err := by decide
+example : (settingsTryFrom { cfg0 with equityTarget := true, equityAccount := ["e"] }).isOk = true := by decide
+def cfg1 : ChartCfg := { cfg0 with strict := false, equityTarget := true, reportCommodity := some "SEK" }
+example : (settingsTryFrom { cfg1 with priceDb := some [("NOK", "SEK")] }).isOk = true := by decide
+example : DeclaredCfg cfg0 := by
+  refine ⟨by simp [cfg0], ?_, ?_⟩
+  · intro rc h _; simp [cfg0] at h; subst h; simp [cfg0]
+  · intro es h e he; simp [cfg0] at h; subst h; simp at he; subst he; simp [cfg0]
+
 end C12
 end Tackler
